@@ -208,6 +208,8 @@ pub struct CloseRec {
     pub reason: Vec<u8>,
     pub t: u64,
     pub implicit: bool,
+    /// true: the connection was already lost (idle timeout, reset) when it was closed; nothing is sent
+    pub silent: bool,
 }
 
 #[derive(Default, Debug)]
@@ -524,9 +526,10 @@ impl Ctx {
                 if let Some((ci, side)) = p.conn {
                     if m.conns[ci].sides[side].established.is_some() {
                         let peer = &m.conns[ci].sides[1 - side];
-                        let mut cl: Vec<&CloseRec> = peer.closes.iter().collect();
+                        let mut cl: Vec<&CloseRec> = peer.closes.iter().filter(|c| !c.silent).collect();
                         // endpoint closes only count for connections that existed at that time
-                        cl.extend(m.eps[peer.ep].closes.iter().filter(|c| peer.established.map_or(false, |e| e <= c.t)));
+                        // (and had not been lost on that side before: a connection that has timed out announces nothing)
+                        cl.extend(m.eps[peer.ep].closes.iter().filter(|c| peer.established.map_or(false, |e| e <= c.t) && peer.first_err.as_ref().map_or(true, |e| e.1 > c.t)));
                         if let Some(c) = cl.iter().min_by_key(|c| c.t) {
                             if now.saturating_sub(c.t.max(p.since)) >= SETTLE_NS {
                                 let sig = if c.implicit { "c18/teardown/implicit-close-not-delivered" } else { "c18/teardown/close-not-delivered" };
@@ -655,7 +658,7 @@ fn handle_released(ctx: &Ctx, ci: usize, side: usize, conn: bool) {
         // the connection was already lost on this side (e.g. idle timeout): nothing is announced any more
     } else if s.handles == 0 {
         // last handle: quinn closes the connection with code 0 and an empty reason
-        s.closes.push(CloseRec { code: 0, reason: vec![], t: now, implicit: true });
+        s.closes.push(CloseRec { code: 0, reason: vec![], t: now, implicit: true, silent: false });
         if m.trace {
             m.log.push(format!("[{:>10.3}ms] conn {ci} side {side}: last handle dropped (implicit close)", now as f64 / 1e6));
         }
@@ -736,7 +739,9 @@ impl Drop for SendH {
     fn drop(&mut self) {
         self.ctx.z_note_drop(self.early, &self.zc, self.ci, self.side, self.key.1, false);
         let now = self.ctx.now();
-        if !self.finished && !self.reset {
+        // (nothing is announced on a connection this side has already seen lost, e.g. by idle timeout)
+        let lost = self.ctx.m.borrow().conns[self.ci].sides[self.side].first_err.is_some();
+        if !self.finished && !self.reset && !lost {
             self.ctx.note_drop(self.ci, "drop-sendstream");
             let mut m = self.ctx.m.borrow_mut();
             let d = m.stream(self.key);
@@ -792,7 +797,8 @@ impl Drop for RecvH {
     fn drop(&mut self) {
         self.ctx.z_note_drop(self.early, &self.zc, self.ci, self.side, self.key.1, true);
         let now = self.ctx.now();
-        if !self.no_implicit_stop {
+        let lost = self.ctx.m.borrow().conns[self.ci].sides[self.side].first_err.is_some();
+        if !self.no_implicit_stop && !lost {
             self.ctx.note_drop(self.ci, "drop-recvstream");
             self.ctx.m.borrow_mut().stream(self.key).stops.push((0, now, true));
         }
@@ -2111,7 +2117,9 @@ async fn exec_op(ctx: &Ctx, t: &mut Task, op: &Op) {
             let Some(conn) = &t.conn else { return };
             let now = ctx.now();
             let code = *code as u64;
-            ctx.m.borrow_mut().conns[ci].sides[side].closes.push(CloseRec { code, reason: code_reason(code), t: now, implicit: false });
+            // (close() on a connection that is already lost, e.g. by idle timeout, announces nothing)
+            let already_lost = matches!(conn.c.close_reason(), Some(quinn::ConnectionError::TimedOut) | Some(quinn::ConnectionError::Reset));
+            ctx.m.borrow_mut().conns[ci].sides[side].closes.push(CloseRec { code, reason: code_reason(code), t: now, implicit: false, silent: already_lost });
             ctx.note_drop(ci, "close-while-pending");
             conn.c.close(VarInt::from_u32(code as u32), &code_reason(code));
             ctx.label("close");
@@ -2124,7 +2132,7 @@ async fn exec_op(ctx: &Ctx, t: &mut Task, op: &Op) {
             let Some(ep) = &t.ep else { return };
             let now = ctx.now();
             let code = *code as u64;
-            ctx.m.borrow_mut().eps[ep.idx].closes.push(CloseRec { code, reason: code_reason(code), t: now, implicit: false });
+            ctx.m.borrow_mut().eps[ep.idx].closes.push(CloseRec { code, reason: code_reason(code), t: now, implicit: false, silent: false });
             ep.e.close(VarInt::from_u32(code as u32), &code_reason(code));
             ctx.label("endpoint-close");
         }
@@ -2355,7 +2363,7 @@ async fn client_root(ctx: Ctx, ep: EpH, ci: usize) {
         None => {
             // dropping `Connecting` drops the only handle: implicit close
             let now = ctx.now();
-            ctx.m.borrow_mut().conns[ci].sides[0].closes.push(CloseRec { code: 0, reason: vec![], t: now, implicit: true });
+            ctx.m.borrow_mut().conns[ci].sides[0].closes.push(CloseRec { code: 0, reason: vec![], t: now, implicit: true, silent: false });
             ctx.label("cancel-connect");
         }
     }
@@ -2507,7 +2515,7 @@ async fn acceptor(ctx: Ctx, ep: EpH) {
         let mut after_close = false;
         if let IncAct::CloseThenAccept { code } = act {
             let code = code as u64;
-            ctx.m.borrow_mut().eps[ep.idx].closes.push(CloseRec { code, reason: code_reason(code), t: now, implicit: false });
+            ctx.m.borrow_mut().eps[ep.idx].closes.push(CloseRec { code, reason: code_reason(code), t: now, implicit: false, silent: false });
             ep.e.close(VarInt::from_u32(code as u32), &code_reason(code));
             ctx.label("endpoint-close-then-accept");
             after_close = true;
@@ -3051,6 +3059,9 @@ struct RawConn {
     /// datagram storm: `send_datagram_wait` calls (len, lazy) dealt round-robin to the tasks of one side,
     /// so that several senders compete for a small send buffer
     storm: (bool, Vec<(u16, u8)>),
+    /// a request/response exchange in which the opener stops the response, the acceptor waits for the stop
+    /// and drops its send half without resetting it, and the opener then needs the stream slot again
+    stopdrop: bool,
 }
 
 fn arb_conn() -> impl Strategy<Value = RawConn> {
@@ -3061,12 +3072,18 @@ fn arb_conn() -> impl Strategy<Value = RawConn> {
         proptest::collection::vec((arb_extra(), any::<bool>(), any::<u8>(), any::<u8>()), 0..6),
         proptest::collection::vec(arb_tail(), 6),
         (any::<bool>(), prop_oneof![9 => Just(vec![]), 1 => proptest::collection::vec((500u16..1_250, prop_oneof![1 => Just(0u8), 1 => 1u8..4]), 4..14)]),
+        proptest::bool::weighted(0.06),
     )
-        .prop_map(|((start_delay_us, connect_cancel), (a, b), flows, extras, tails, storm)| RawConn { start_delay_us, connect_cancel, n_tasks: [a, b], flows, extras, tails, storm })
+        .prop_map(|((start_delay_us, connect_cancel), (a, b), flows, extras, tails, storm, stopdrop)| RawConn { start_delay_us, connect_cancel, n_tasks: [a, b], flows, extras, tails, storm, stopdrop })
 }
 
 fn compile(rc: RawConn) -> ConnProg {
     let mut tasks: [Vec<Vec<Op>>; 2] = [vec![vec![]; rc.n_tasks[0]], vec![vec![]; rc.n_tasks[1]]];
+    if rc.stopdrop {
+        let nc = Cancel::default;
+        tasks[0][0].extend([Op::OpenBi(nc()), Op::Write { s: LAST, len: 10, c: nc() }, Op::Finish { s: LAST }, Op::Stop { r: LAST, code: 3 }, Op::OpenBi(nc()), Op::Finish { s: LAST }]);
+        tasks[1][0].extend([Op::AcceptBi(nc()), Op::ReadAll { r: LAST, style: 0, piece: 64, c: nc() }, Op::Stopped { s: LAST, c: nc() }, Op::DropSend { s: LAST }, Op::DropRecv { r: LAST }, Op::AcceptBi(nc())]);
+    }
     for (f, client_opens, ot, at) in rc.flows {
         let (o, a) = if client_opens { (0, 1) } else { (1, 0) };
         let ot = pick(ot, rc.n_tasks[o]).unwrap();
@@ -3125,6 +3142,9 @@ pub fn arb_scenario() -> impl Strategy<Value = Scenario> {
         .prop_map(|((seed, net, mut cfg, one_endpoint), (acceptor, accept_cancel), conns, sched)| {
             if conns.iter().any(|c| !c.storm.1.is_empty()) {
                 cfg.dgram_send_buf = 1_300 + cfg.dgram_send_buf % 2_700;
+            }
+            if conns.iter().any(|c| c.stopdrop) {
+                cfg.max_bi = 1;
             }
             (seed, net, cfg, one_endpoint, acceptor, accept_cancel, conns, sched)
         })
